@@ -373,6 +373,10 @@ def run_case(case, ctx):
                 elif not (v == v and G.close(v, d)):
                     return bad({"what": "list form distance is not the minimum over permitted walks", "s": ids[s],
                                 "t": ids[t], "got": v, "true_distance": d, "call_index": i})
+            # aliasing: the lists handed back belong to the caller, who may empty or reorder them
+            M.scribble(order)
+            M.scribble(r)
+            ctx.count("returned_lists_modified_by_the_caller")
         else:
             cut = a
             if cut is None and i % 2 == 0:
@@ -394,6 +398,8 @@ def run_case(case, ctx):
             if w:
                 w["call_index"] = i
                 return bad(w)
+            if not M.is_raised(tbl) and tbl is not shared:
+                M.scribble(tbl)                  # the table belongs to the caller too
     # derived object: a sub-network extracted from this network (it re-uses the parent's node and edge objects) is
     # queried, then the parent again; each must answer for ITS graph
     if n >= 2 and case["ord"] % 3 == 2:
